@@ -1,6 +1,7 @@
-(* C11 proofs, part 5: every history outside the recorded finding classes reads back what it wrote
-   (history_readback_l), the classes themselves break it on the model (the ..._refuted witnesses),
-   and the lemmas packaged for Props/C11.v. *)
+(* C11 proofs, part 5: every history outside the one surviving finding class reads back what it wrote
+   (history_readback_l), that class breaks it on the model (history_refuted_cached_pointer_l), the repaired
+   classes no longer do (the historical witnesses now satisfy the oracle), and the lemmas packaged for
+   Props/C11.v. *)
 From Coq Require Import ZArith List Bool Lia ZifyBool.
 From TV Require Import Lib.MachInt Lib.MachIntFacts Gen.Toast Model.Toast Model.Utf8 Model.ToastSql
   Proof.ToastCodec Proof.ToastStore Proof.ToastSqlBase Proof.ToastSqlStep.
@@ -36,40 +37,26 @@ Qed.
 Lemma run_from_length : forall ops st, length (snd (run_from ty pk st ops)) = length ops.
 Proof. induction ops as [|o t IH]; intros st; [reflexivity|]. rewrite run_from_cons. cbn [snd length]. now rewrite IH. Qed.
 
-(* the class-3 flag never goes down *)
-Lemma step_lost_mono st o : lost st = true -> lost (fst (step ty pk st o)) = true.
+(* the class-4 flag never goes down *)
+Lemma step_fake_mono st o : fake st = true -> fake (fst (step ty pk st o)) = true.
 Proof.
   intros H. unfold step. destruct (dead st); [exact H|].
   destruct o; cbn [fst].
-  - unfold step_ins. destruct (snd _); [destruct (_ || _)|]; exact H.
+  - unfold step_ins. destruct (snd _); [destruct (_ || _)|]; cbn [fst fake]; now rewrite H.
   - unfold step_upd. destruct (find_k k (rows st)); [|exact H].
-    destruct (_ && pk); [exact H|]. destruct (snd _); cbn [fst lost]; [exact H | now rewrite H].
+    destruct (_ && pk); [exact H|]. destruct (snd _); exact H.
   - unfold step_del. destruct (find_k k (rows st)); exact H.
   - exact H.
   - unfold step_query. destruct (all_ok _); [exact H|]. destruct (existsb is_unknown _); [exact H|].
     destruct (existsb is_abort _); [exact H|]. destruct (existsb is_panic _); exact H.
   - exact H.
 Qed.
-Lemma run_lost_mono : forall ops st, lost st = true -> lost (fst (run_from ty pk st ops)) = true.
+Lemma run_fake_mono : forall ops st, fake st = true -> fake (fst (run_from ty pk st ops)) = true.
 Proof.
-  induction ops as [|o t IH]; intros st H; [exact H|]. rewrite run_from_cons. cbn [fst]. apply IH. now apply step_lost_mono.
+  induction ops as [|o t IH]; intros st H; [exact H|]. rewrite run_from_cons. cbn [fst]. apply IH. now apply step_fake_mono.
 Qed.
 
-(* ---------------------------------------------------------------- clean histories *)
-Definition clean_op (o : op) : Prop :=
-  match o with OIns _ _ v | OUpd _ _ v => clean_val ty v | _ => True end.
-
-Lemma clean_of_flags o : op_ok ty o = true -> fake_pointer_op o = false -> utf8_blob_op o = false -> clean_op o.
-Proof.
-  destruct o; cbn [clean_op]; auto; intros Hok Hf Hu; cbn [op_ok fake_pointer_op utf8_blob_op written] in *.
-  - split; [exact Hok|]. split.
-    + intros b Hb. now rewrite Hb in Hf.
-    + intros b -> Hn. rewrite Hn in Hu. exact Hu.
-  - split; [exact Hok|]. split.
-    + intros b Hb. now rewrite Hb in Hf.
-    + intros b -> Hn. rewrite Hn in Hu. exact Hu.
-Qed.
-
+(* ---------------------------------------------------------------- well-formed histories *)
 Lemma existsb_false_forall {A} (f : A -> bool) l : existsb f l = false -> forall x, In x l -> f x = false.
 Proof.
   induction l as [|h t IH]; intros H x Hin; [destruct Hin|]. cbn [existsb] in H. apply orb_false_iff in H as [H1 H2].
@@ -108,49 +95,49 @@ Qed.
 
 (* ---------------------------------------------------------------- the induction *)
 Lemma run_ok : forall ops st e,
-  Inv ty st e -> dead st = false -> Forall clean_op ops -> NoDup (ins_keys ops) ->
+  Inv ty st e -> dead st = false -> forallb (op_ok ty) ops = true -> NoDup (ins_keys ops) ->
   (forall k, In k (ins_keys ops) -> ~ In k (map r_k (rows st))) ->
-  next_rid st + Z.of_nat (length ops) < 2 ^ 62 ->
-  lost (fst (run_from ty pk st ops)) = false ->
+  next_rid st + Z.of_nat (length ops) <= 2 ^ 48 ->
+  fake (fst (run_from ty pk st ops)) = false ->
   spec_from e (combine ops (snd (run_from ty pk st ops))) = true.
 Proof.
-  induction ops as [|o t IH]; intros st e Hi Hd Hc Hn Hfresh Hrid Hlost; [reflexivity|].
-  rewrite run_from_cons in Hlost |- *. cbn [fst snd] in Hlost |- *. cbn [combine].
+  induction ops as [|o t IH]; intros st e Hi Hd Hc Hn Hfresh Hrid Hfake; [reflexivity|].
+  rewrite run_from_cons in Hfake |- *. cbn [fst snd] in Hfake |- *. cbn [combine].
   rewrite spec_from_step.
-  inversion Hc as [|? ? Hco Hct]; subst.
+  cbn [forallb] in Hc. apply andb_true_iff in Hc as [Hco Hct].
   cbn [length] in Hrid. rewrite Nat2Z.inj_succ in Hrid. pose proof (inv_rid ty st e Hi) as Hr1.
   destruct (step ty pk st o) as [st1 ob] eqn:Es. cbn [fst snd] in *.
-  assert (lost st1 = false) as Hl1.
-  { destruct (lost st1) eqn:E; [|reflexivity]. rewrite (run_lost_mono t st1 E) in Hlost. discriminate. }
+  assert (fake st1 = false) as Hf1.
+  { destruct (fake st1) eqn:E; [|reflexivity]. rewrite (run_fake_mono t st1 E) in Hfake. discriminate. }
   unfold step in Es. rewrite Hd in Es.
-  destruct o as [p k v|p k v|k| |s|].
+  destruct o as [p k v|p k v|k| |s|]; cbn [op_ok] in Hco.
   - (* INSERT *)
     cbn [ins_keys] in Hn, Hfresh. inversion Hn as [|? ? Hk Hnt]; subst.
-    destruct (step_ins_ok ty st e p k v st1 ob Hi Hco (Hfresh k (or_introl eq_refl)) ltac:(lia) Es)
-      as (e' & Hs & Hi' & Hd' & _ & Hr' & Hkeys).
+    destruct (step_ins_ok ty st e p k v st1 ob Hi Hco (Hfresh k (or_introl eq_refl)) ltac:(lia) Es Hf1)
+      as (e' & Hs & Hi' & Hd' & Hr' & Hkeys).
     rewrite Hs. apply IH; auto; [congruence | | lia].
     intros k' Hk' Hin. destruct (Hkeys k' Hin) as [->|Hold]; [contradiction|].
     eapply Hfresh; [right; exact Hk' | exact Hold].
   - (* UPDATE *)
     cbn [ins_keys] in Hn, Hfresh.
-    destruct (step_upd_ok ty pk st e p k v st1 ob Hi Hco Es Hl1) as (e' & Hs & Hi' & Hd' & Hr' & Hkeys).
+    destruct (step_upd_ok ty pk st e p k v st1 ob Hi Hco ltac:(lia) Es) as (e' & Hs & Hi' & Hd' & _ & Hr' & Hkeys).
     rewrite Hs. apply IH; auto; [congruence | rewrite Hkeys; exact Hfresh | lia].
   - (* DELETE *)
     cbn [ins_keys] in Hn, Hfresh.
-    destruct (step_del_ok ty st e k st1 ob Hi Es) as (e' & Hs & Hi' & Hd' & _ & Hr' & Hkeys).
+    destruct (step_del_ok ty st e k st1 ob Hi ltac:(lia) Es) as (e' & Hs & Hi' & Hd' & _ & Hr' & Hkeys).
     rewrite Hs. apply IH; auto; [congruence | | lia].
     intros k' Hk' Hin. eapply Hfresh; eauto.
   - (* reopen *)
     cbn [ins_keys] in Hn, Hfresh. unfold step_reopen in Es. injection Es as <- <-. cbn [spec_step].
     pose proof (max_rid_lt st e Hi) as Hmax. pose proof (max_rid_ge st) as Hge.
     apply IH; auto; cbn [next_rid rows]; [| lia].
-    destruct Hi as [A B C D E F]. constructor; cbn [rows toast next_rid gone]; auto; [lia | |].
+    destruct Hi as [A B C D E F G]. constructor; cbn [rows toast next_rid gone]; auto; [lia | |].
     + intros r Hin. specialize (Hge (r_rid r) (in_or_app _ _ _ (or_introl (in_map r_rid _ _ Hin)))).
       pose proof (E r Hin). lia.
     + intros x Hin. specialize (Hge x (in_or_app _ _ _ (or_intror Hin))). pose proof (F x Hin). lia.
   - (* SELECT *)
     cbn [ins_keys] in Hn, Hfresh.
-    destruct (step_query_ok ty st e st1 ob Hi Es) as [Hs ->]. cbn [spec_step] in Hs |- *. rewrite Hs.
+    destruct (step_query_ok ty st e st1 ob Hi ltac:(lia) Es) as [Hs ->]. cbn [spec_step] in Hs |- *. rewrite Hs.
     apply IH; auto. lia.
   - (* skipped *)
     cbn [ins_keys] in Hn, Hfresh. injection Es as <- <-. cbn [spec_step]. apply IH; auto. lia.
@@ -161,20 +148,15 @@ Lemma history_readback_pre : forall ops,
 Proof.
   intros ops Hwf Hcl. unfold wf_hist in Hwf. apply andb_true_iff in Hwf as [Hwf Hlen]. apply andb_true_iff in Hwf as [Hok Hnd].
   unfold hist_class in Hcl.
-  destruct (existsb fake_pointer_op ops) eqn:Ef; [discriminate|].
-  destruct (lost (final ty pk ops)) eqn:El; [discriminate|].
-  destruct (existsb utf8_blob_op ops) eqn:Eu; [discriminate|].
+  destruct (fake (final ty pk ops)) eqn:El; [discriminate|].
   unfold spec_hist, run. rewrite run_from_length, Nat.eqb_refl. cbn [andb].
   apply run_ok.
-  - constructor; cbn; [constructor | constructor | intros ? ? ? [] | lia | intros ? [] | intros ? []].
+  - constructor; cbn; [constructor | constructor | constructor | lia | intros ? [] | intros ? [] | intros ? ? H; discriminate H].
   - reflexivity.
-  - apply Forall_forall. intros o Hin. apply clean_of_flags.
-    + rewrite forallb_forall in Hok. now apply Hok.
-    + now apply (existsb_false_forall _ _ Ef).
-    + now apply (existsb_false_forall _ _ Eu).
+  - exact Hok.
   - now apply nodup_z_NoDup.
   - intros k _ [].
-  - cbn [next_rid st0]. change (2 ^ 60) with 1152921504606846976 in Hlen. change (2 ^ 62) with 4611686018427387904. lia.
+  - cbn [next_rid st0]. change (2 ^ 47) with 140737488355328 in Hlen. change (2 ^ 48) with 281474976710656. lia.
   - exact El.
 Qed.
 End Main.
@@ -202,54 +184,64 @@ Lemma toast_collision_l : forall m cid d d0,
   stored_at m cid d0 -> d0 <> [] -> d <> [] -> toast_write m cid d = (m, false).
 Proof. exact toast_write_blocked. Qed.
 
-(* one stored value: what SELECT shows *)
-Lemma readback_value_l : forall ty m cid b,
-  0 <= cid < 2 ^ 64 -> blen b < ALLOC_OK -> stored_at m cid b ->
-  read_value ty m (SBytes (ptr_encode (blen b) cid)) = ROk (if valid_utf8 b then VText b else VBlob b).
-Proof.
-  intros ty m cid b Hc Hl Hs. cbn [read_value]. rewrite ptr_encode_is_pointer, detoast_stored by auto. reflexivity.
-Qed.
+(* one stored value: what SELECT shows for a pointer written for row id rid of column c (16c5acb: typed by the column) *)
+Lemma readback_value_l : forall ty m rid b,
+  0 <= rid < 2 ^ 48 -> blen b < ALLOC_OK -> stored_at m (chunk_id_of rid COL_C) b ->
+  read_value ty m (SBytes (ptr_encode (blen b) (chunk_id_of rid COL_C))) =
+  match ty with TText => if valid_utf8 b then ROk (VText b) else RErr | _ => ROk (VBlob b) end.
+Proof. exact read_toasted. Qed.
 
 Lemma readback_inline_l : forall ty m b,
   is_toast_pointer b = false ->
   read_value ty m (SBytes b) = ROk (match ty with TBlob => VBlob b | _ => VText b end).
 Proof. intros ty m b H. cbn [read_value]. rewrite H. destruct ty; reflexivity. Qed.
 
-(* ---- the finding classes break the property on the model *)
+(* ---- the three repaired classes: their witnesses now satisfy the oracle on the model of the repaired tree *)
 Definition ops_utf8_blob : list op := [OIns PL 1 (VBlob (repeat 97 1001)); OQuery 0].
 Definition ops_fake_pointer : list op := [OIns PL 1 (VBlob (254 :: repeat 0 16)); OQuery 0].
 Definition ops_lost_update : list op :=
   [OIns PL 1 (VText [97]); OIns PL 2 (VText (repeat 98 1001)); OUpd PL 1 (VText (repeat 99 1001));
    OQuery 0; OUpd PL 2 (VText (repeat 100 1001)); OQuery 0].
 
-Lemma history_refuted_utf8_blob_l :
-  wf_hist TBlob ops_utf8_blob = true /\ hist_class TBlob false ops_utf8_blob = 1 /\
-  run TBlob false ops_utf8_blob = [SWrote true; SRows [(1, VText (repeat 97 1001))]] /\
-  spec_hist ops_utf8_blob (run TBlob false ops_utf8_blob) = false.
+Lemma historical_utf8_blob_l :
+  hist_class TBlob false ops_utf8_blob = 0 /\
+  run TBlob false ops_utf8_blob = [SWrote true; SRows [(1, VBlob (repeat 97 1001))]] /\
+  spec_hist ops_utf8_blob (run TBlob false ops_utf8_blob) = true.
 Proof. vm_compute. repeat split; reflexivity. Qed.
 
-Lemma history_refuted_fake_pointer_l :
-  wf_hist TBlob ops_fake_pointer = true /\ hist_class TBlob false ops_fake_pointer = 2 /\
-  run TBlob false ops_fake_pointer = [SWrote true; SRows [(1, VText [])]] /\
-  spec_hist ops_fake_pointer (run TBlob false ops_fake_pointer) = false.
+Lemma historical_fake_pointer_l :
+  hist_class TBlob false ops_fake_pointer = 0 /\
+  run TBlob false ops_fake_pointer = [SWrote true; SRows [(1, VBlob (254 :: repeat 0 16))]] /\
+  spec_hist ops_fake_pointer (run TBlob false ops_fake_pointer) = true.
 Proof. vm_compute. repeat split; reflexivity. Qed.
 
-Lemma history_refuted_lost_update_l :
-  wf_hist TText ops_lost_update = true /\ hist_class TText false ops_lost_update = 3 /\
+Lemma historical_lost_update_l :
+  hist_class TText false ops_lost_update = 0 /\
   run TText false ops_lost_update =
     [SWrote true; SWrote true; SWrote true; SRows [(1, VText (repeat 99 1001)); (2, VText (repeat 98 1001))];
-     SWrote false; SQueryErr] /\
-  spec_hist ops_lost_update (run TText false ops_lost_update) = false.
+     SWrote true; SRows [(1, VText (repeat 99 1001)); (2, VText (repeat 100 1001))]] /\
+  spec_hist ops_lost_update (run TText false ops_lost_update) = true.
 Proof. vm_compute. repeat split; reflexivity. Qed.
 
-(* non-vacuity: a history with values on both sides of the threshold, UPDATEs, a DELETE and a reopen that
-   satisfies the hypotheses of history_readback (and what it shows) *)
+(* ---- the class that survives: a re-executed prepared INSERT (insert_cached) stores the 17 pointer-like bytes
+   inline; SELECT then detoasts them (here: size field 0, the value comes back as the empty blob) *)
+Definition ops_cached_pointer : list op :=
+  [OIns PS 1 (VBlob [0]); OIns PS 2 (VBlob (254 :: repeat 0 16)); OQuery 0].
+Lemma history_refuted_cached_pointer_l :
+  wf_hist TBlob ops_cached_pointer = true /\ hist_class TBlob false ops_cached_pointer = 4 /\
+  run TBlob false ops_cached_pointer = [SWrote true; SWrote true; SRows [(1, VBlob [0]); (2, VBlob [])]] /\
+  spec_hist ops_cached_pointer (run TBlob false ops_cached_pointer) = false.
+Proof. vm_compute. repeat split; reflexivity. Qed.
+
+(* non-vacuity: a history with values on both sides of the threshold, a pointer-like blob, a BLOB that is valid
+   UTF-8, UPDATEs that used to collide, a DELETE and a reopen satisfies the hypotheses of history_readback *)
 Definition ops_example : list op :=
-  [OIns PL 1 (VText (repeat 97 (Z.to_nat 5000))); OIns PP 2 (VText [104; 105]); OIns PS 3 (VText (repeat 98 1001));
-   OUpd PL 1 (VText (repeat 99 (Z.to_nat 9000))); OUpd PP 2 (VText (repeat 100 1001)); ODel 3; OReopen; OQuery 0].
+  [OIns PL 1 (VBlob (repeat 97 (Z.to_nat 5000))); OIns PP 2 (VBlob (254 :: repeat 1 16)); OIns PS 3 (VBlob (repeat 98 1001));
+   OUpd PL 1 (VBlob (repeat 99 (Z.to_nat 9000))); OUpd PP 2 (VBlob (repeat 100 1001)); ODel 3; OReopen;
+   OIns PP 4 (VBlob (254 :: repeat 2 16)); OQuery 0].
 Lemma history_example_l :
-  wf_hist TText ops_example = true /\ hist_class TText true ops_example = 0 /\
-  run TText true ops_example =
-    [SWrote true; SWrote true; SWrote true; SWrote true; SWrote true; SWrote true; SReopened true;
-     SRows [(1, VText (repeat 99 (Z.to_nat 9000))); (2, VText (repeat 100 1001))]].
+  wf_hist TBlob ops_example = true /\ hist_class TBlob false ops_example = 0 /\
+  run TBlob false ops_example =
+    [SWrote true; SWrote true; SWrote true; SWrote true; SWrote true; SWrote true; SReopened true; SWrote true;
+     SRows [(1, VBlob (repeat 99 (Z.to_nat 9000))); (2, VBlob (repeat 100 1001)); (4, VBlob (254 :: repeat 2 16))]].
 Proof. vm_compute. repeat split; reflexivity. Qed.
